@@ -10,6 +10,12 @@ def gen(x):
     w.append("def wave_NO_FIT : Nat := 4294967295  -- wave.h (uint32_t)-1")
     m = x.need(re.search(r"filesize\s*<\s*(\d+)", cpp), "wave.cpp:minimum file size")
     w.append("def wave_minFileSize : Nat := %s  -- Wave_File::read" % m.group(1))
+    m = x.need(re.search(r"size\s*<\s*0\s*\|\|\s*size\s*>\s*(0x[0-9a-fA-F]+)\s*\)\s*return -1", cpp), "wave.cpp:load_file maximum file size")
+    w.append("def wave_maxFileSize : Nat := %d  -- Wave_File::load_file: larger files are not read" % int(m.group(1), 16))
+    # repaired D11: a fresh placement stores the window [start, start+size) and hands out start = 0; the length test includes start
+    x.need(re.search(r"copy_n\(sample\.begin\(\)\s*\+\s*header\.start,\s*header\.size,\s*rom_data\.begin\(\)\s*\+\s*start_pos\);\s*"
+                     r"header\.position\s*=\s*start_pos;\s*header\.start\s*=\s*0;", cpp), "wave.cpp:add_sample fresh placement stores the window")
+    x.need(re.search(r"\(uint64_t\)header\.start\s*\+\s*header\.size\s*>\s*sample\.size\(\)", cpp), "wave.cpp:add_sample window length test")
     ids = re.findall(r"case\s+(0x[0-9a-fA-F]{8})\s*:", cpp)
     if len(ids) != 3:
         raise x.ShapeError("wave.cpp:parse_chunk case labels")
